@@ -20,7 +20,7 @@ RULE = (
     "substitution by the same-index container of a foreign record with identical content, substitution by a fork, "
     "patch stacked on the other fork, duplicated container, extra foreign container, nulled hash of a non-newest "
     "container, edited prev_patch/record_uuid/patch_uuid, duplicated patch_uuid, manifest removed/flipped/replaced, stub "
-    "as non-base; each opened by explicit list and by name in r (sampled: r+/a, which must also not create a file). "
+    "as non-base, baseless sets opened with allow_baseless=True (flips, gap, foreign container); each opened by explicit list and by name in r (sampled: r+/a, which must also not create a file). "
     "Oracle: a faulty set must raise. Controls that must open: unmutated set, ASCII-safe change in user-block padding, "
     "removal of the newest container, fork as newest, uncommitted newest, missing sidecar of a non-newest container. "
     "non-trivial = a fault was applied (controls are trivial); distinct = (record, fault descriptor)."
@@ -355,6 +355,56 @@ def run_record(rng, acc, d, clsname, tier, rec_seed=None):
         shutil.copy(RE.sidecar(R.files[0]), RE.sidecar(tgt))
         must_fail(["stub-as-patch"], [st[0], tgt])
 
+    # ---------------- 10. baseless sets (explicit allow_baseless=True): the base requirement is waived, integrity is not
+    if R.n >= 3:
+        def attempt_bl(files):
+            try:
+                r = cls(list(files), "r", allow_baseless=True)
+            except Exception as e:
+                gc.collect()
+                return "raised", classify(e)
+            RE.safe_close(r, commit=False)
+            return "opened", f"{len(files)} containers"
+        st = R.stage(W, R.files[1:])
+        res, info = attempt_bl(st)
+        if res != "opened":
+            acc.count("harness_errors")
+            acc.note(f"control baseless set did not open: {info}")
+        else:
+            acc.count("controls.baseless")
+            acc.case([rid, ["baseless-control"]], nontrivial=False)
+        for ci in range(len(st)):
+            data = st[ci].read_bytes()
+            for off in sorted({UB + 3, len(data) - 5, rng.randrange(UB, len(data)), rng.randrange(UB, len(data))}):
+                b = bytearray(data)
+                b[off] ^= 0x01
+                tmp = st[ci].with_suffix(".tmp")
+                tmp.write_bytes(bytes(b))
+                os.replace(tmp, st[ci])
+                res, info = attempt_bl(st)
+                acc.count("faults.baseless-flip")
+                acc.count(f"detected_by.{info}" if res == "raised" else "undetected")
+                acc.case([rid, ["baseless-flip", ci, off]], nontrivial=True)
+                if res == "opened":
+                    viol.append((["baseless-flip", ci, off], f"baseless set (allow_baseless=True) with a flipped payload byte in container {ci + 1} opened"))
+            tmp = st[ci].with_suffix(".tmp")
+            tmp.write_bytes(data)
+            os.replace(tmp, st[ci])
+        if R.n >= 4:
+            st = R.stage(W, [R.files[1]] + R.files[3:])
+            res, info = attempt_bl(st)
+            acc.count("faults.baseless-gap")
+            acc.case([rid, ["baseless-gap"]], nontrivial=True)
+            if res == "opened":
+                viol.append((["baseless-gap"], "baseless set with a gap in the chain opened"))
+        st = R.stage(W, R.files[1:])
+        shutil.copy(R.ffiles[2], st[1])
+        res, info = attempt_bl(st)
+        acc.count("faults.baseless-foreign")
+        acc.case([rid, ["baseless-foreign"]], nontrivial=True)
+        if res == "opened":
+            viol.append((["baseless-foreign"], "baseless set with a foreign container opened"))
+
     for desc, msg in viol[:6]:
         acc.violation(f"{desc[0]}:{clsname}", f"{msg}; fault {desc} on record {rid}",
                       {"cls": clsname, "seed": R.seed, "fault": desc})
@@ -381,7 +431,7 @@ def inconclusive(cov):
     r = []
     need = ["faults.flip", "faults.remove", "faults.foreign-subst", "faults.duplicate", "faults.ub-hash-nulled",
             "faults.manifest-flip", "faults.stub-as-patch", "faults.stacked-on-other-fork", "controls.unmutated",
-            "controls.padding-edit", "controls.fork-as-newest", "controls.uncommitted-newest"]
+            "controls.padding-edit", "controls.fork-as-newest", "controls.uncommitted-newest", "controls.baseless", "faults.baseless-flip"]
     for k in need:
         if not c.get(k):
             r.append(f"fault/control class never exercised: {k}")
